@@ -21,7 +21,7 @@ int main() {
   int maxT = (int)vsim_param("maxthreads", 1, cap);
   Machine m = draw_machine(maxT);
   int impl = (int)vsim_param("impl", 0, 6);
-  int regions = (int)vsim_param("regions", 1, 3);
+  int regions = (int)vsim_param("regions", 1, 5);
   int maxph = tier() ? 40 : 12;
   vsim_note("component", "barrier=%s", impl_names[impl]);
   vsim_enable_fault(VF_CAS_WEAK, 0.01, 0.2);
@@ -42,7 +42,7 @@ int main() {
   std::string plan;
   for (int r = 0; r < regions; r++) {
     int n = (int)wl_range(1, hw);
-    int k = (int)wl_range(3, maxph);
+    int k = wl_chance(40) ? (int)wl_range(1, 3) : (int)wl_range(1, maxph);   // few phases between re-initialisations matter (stale per-phase state)
     bool fast = wl_chance(20);
     // (re)initialise between regions: no thread is inside wait() here
     if (impl == 1) bar = &galois::runtime::getBarrier(n);
